@@ -262,7 +262,9 @@ def run(ctx):
                 return "entropy-ignores-wire-order:reference.qubit"
             if "reference.qubit" in mech and any(k in repr(spec["meas"]) for k in ("'herm'", "'projvec'", "'sparse'")):
                 return "reference.qubit:undiagonalized-observable"
-            if "default.clifford" in mech and "SX" in gen.spec_kinds(spec):
+            if "default.clifford" in mech and "SX" in gen.spec_kinds(spec) and "ValueError" in mech:
+                # only the 'Gate not found' rejection is the SX mechanism; other failures of circuits that happen to contain SX
+                # are classified by their own symptoms below
                 return "default.clifford:stim-gate-name:SX"
             if "default.clifford" in mech and mech.endswith(":probs"):
                 return "default.clifford:probs-wire-order"
